@@ -2,6 +2,7 @@
 """Second-round seeding prompt: same task, new numbering (m4..m6), and the list of ideas already used."""
 import json, sys, glob, os
 pid, wt, out = sys.argv[1], sys.argv[2], sys.argv[3]
+start = int(sys.argv[4]) if len(sys.argv) > 4 else 4
 tpl = open("/tmp/prompts/seed_template.md").read()
 for l in open("/verif/properties.jsonl"):
     p = json.loads(l)
@@ -10,12 +11,12 @@ for l in open("/verif/properties.jsonl"):
 s = (tpl.replace("{WT}", wt).replace("{OUT}", out).replace("{ID}", pid).replace("{TITLE}", p["title"])
       .replace("{STATEMENT}", p["statement"]).replace("{QUANT}", p["quantifier"]["text"])
       .replace("{FILES}", ", ".join(p["anchors"]["files"])))
-s = s.replace("For each change k = 1, 2, 3 write", "For each change k = 4, 5, 6 write").replace("m{k}", "m{k}")
+s = s.replace("For each change k = 1, 2, 3 write", "For each change k = %d, %d, %d write" % (start, start+1, start+2))
 used = []
-for m in sorted(glob.glob(os.path.join(out, "m[123]", "meta.json"))):
+for m in sorted(glob.glob(os.path.join(out, "m[0-9]*", "meta.json"))):
     try:
         used.append("- " + json.load(open(m))["breaks"][:300].replace("\n", " "))
     except Exception:
         pass
-s += "\n\nNumber your three changes m4, m5 and m6 (directories " + out + "/m4, m5, m6). Another author has already produced the following changes; yours must be of a DIFFERENT nature (different code site or different mechanism, different sentence of the property where possible):\n" + "\n".join(used) + "\n"
+s += "\n\nNumber your three changes m%d, m%d and m%d (directories under " % (start, start+1, start+2) + out + "). Another author has already produced the following changes; yours must be of a DIFFERENT nature (different code site or different mechanism, different sentence of the property where possible):\n" + "\n".join(used) + "\n"
 print(s)
